@@ -122,9 +122,40 @@ def t_loop(rng: random.Random, u: str, hostile: bool = False) -> Unit:
     calls = _calls(u + "_f", ptypes, rng, 10)
     if "range" in tag:
         for c in calls:
-            c["setup"] = [s if " = [" in s or "{" in s or "'" in s else s.split(" = ")[0] + " = " + str(rng.choice(
-                [0, 1, 2, 3, 5, 7, 8, 11, 13, 14, -1, -2, -5, 2 ** 62, 2 ** 64 + 5, -2 ** 63])) for s in c["setup"]]
+            c["setup"] = [s if ptypes[i] != "int" else f"a{i} = " + str(rng.choice(
+                [0, 1, 2, 3, 5, 7, 8, 11, 13, 14, -1, -2, -5, 2 ** 62, 2 ** 64 + 5, -2 ** 63])) for i, s in enumerate(c["setup"])]
     return {"src": "\n".join([sig] + ind(body)), "calls": calls, "tags": [tag, "loop." + (extra or "plain")], "kind": "loop:" + tag}
+
+
+def t_range_grid(rng: random.Random, u: str, hostile: bool = False) -> Unit:
+    """for-range helper over an exhaustive small grid of (start, stop) for one step (literal or variable), per index type."""
+    it = rng.choice(["int", "int", "i64", "len"])
+    step = rng.choice([-1, -2, -2, -3, -3, -4, -5, -7, 1, 2, 3, 4, 5])
+    var = rng.random() < 0.25
+    body = ["out: list[str] = []"]
+    if it == "len":
+        body += ["for a in range(lo, hi):", "    for b in range(lo, hi):", "        la = [0] * max(a, 0)", "        lb = [0] * max(b, 0)",
+                 f"        for i in range(len(la), len(lb), {'st' if var else step}):", "            out.append(str(a) + ',' + str(b) + ':' + str(i))"]
+    else:
+        body += [f"lo2: {it} = lo", f"hi2: {it} = hi", "a = lo2", "while a < hi2:", "    b = lo2", "    while b < hi2:",
+                 f"        for i in range(a, b, {'st' if var else step}):", "            out.append(str(a) + ',' + str(b) + ':' + str(i))",
+                 "        b += 1", "    a += 1"]
+    extra = rng.choice(["", "", "last"])
+    if extra == "last":
+        body = [ln.replace("out.append(str(a) + ',' + str(b) + ':' + str(i))", "last = i") for ln in body]
+        body = [ln if "for i in range(" not in ln else ln for ln in body]
+        # the value of the loop variable after the loop is observable too
+        idx = next(k for k, ln in enumerate(body) if "last = i" in ln)
+        pad = body[idx][: len(body[idx]) - len(body[idx].lstrip())][:-4]
+        body.insert(idx - 1, pad + "last = -99")
+        body.insert(idx + 2, pad + "out.append(str(a) + ',' + str(b) + ':' + str(last))")
+    body += ["return out"]
+    sig = f"def {u}_f(lo: int, hi: int, st: int) -> list[str]:"
+    steps = [step] if not var else [-1, -2, -3, -5, 1, 2, 4]
+    calls = [{"setup": [], "call": f"{u}_f(-3, 7, {k})", "post": []} for k in steps]
+    calls += [{"setup": [], "call": f"{u}_f({lo}, {hi}, {steps[0]})", "post": []} for lo, hi in ((0, 12), (-9, -2), (2 ** 62 - 3, 2 ** 62 + 3) if it == "int" else (5, 9))]
+    return {"src": "\n".join([sig] + ind(body)), "calls": calls, "tags": [f"for.range.grid[{it}]", "for.range.grid.step:" + ("var" if var else str(step))],
+            "kind": f"rangegrid:{it}:{'var' if var else ('neg' if step < 0 else 'pos')}step"}
 
 
 def t_callshape(rng: random.Random, u: str, hostile: bool = False) -> Unit:
@@ -741,6 +772,6 @@ def t_store(rng: random.Random, u: str, hostile: bool = False) -> Unit:
 
 
 TEMPLATES: list[tuple[Callable[..., Unit], float]] = [
-    (t_prim, 9.0), (t_stmt, 3.0), (t_loop, 4.0), (t_callshape, 2.0), (t_pycall, 0.7), (t_class, 2.0), (t_dunder, 0.5), (t_generator, 2.0),
+    (t_prim, 9.0), (t_stmt, 3.0), (t_loop, 4.0), (t_range_grid, 2.5), (t_callshape, 2.0), (t_pycall, 0.7), (t_class, 2.0), (t_dunder, 0.5), (t_generator, 2.0),
     (t_closure, 1.5), (t_exc, 2.0), (t_uninit, 2.0), (t_narrow, 2.0), (t_store, 1.5),
 ]
